@@ -1133,6 +1133,20 @@ func genMoveScenario(r *rng, o openOpts, kind int) []string {
 			L = append(L, "x w get "+nb+"/"+q+" "+hx("k001"))
 		}
 		L = append(L, "x w delb - "+nb, "dump w", "commit")
+	case 3:
+		// a bucket that holds little besides a nested bucket which has pages of its own, edited WITHOUT opening the nested bucket
+		// (no dump inside that transaction: a dump opens every bucket): it must not be written inline
+		a, c := hx("a"), hx("child")
+		L = append(L, "x w create - "+a, "x w create "+a+" "+c)
+		L = append(L, big(a+"/"+c, 6+r.intn(20))...)
+		if r.chance(1, 2) {
+			L = append(L, "x w create "+a+" "+hx("tiny"), "x w put "+a+"/"+hx("tiny")+" 6b 76")
+		}
+		L = append(L, "dump w", "commit", "beginw", "x w put "+a+" "+hx("p1")+" @12:3")
+		if r.chance(1, 2) {
+			L = append(L, "x w put "+a+" "+hx("p2")+" @5:4", "x w del "+a+" "+hx("p1"))
+		}
+		L = append(L, "commit", "beginr 900", "dump r900", "check r900", "endr 900", "beginw", "x w get "+a+"/"+c+" "+hx("k001"), "x w put "+a+" "+hx("p3")+" 01", "dump w", "commit")
 	default:
 		a, c, g, d := hx("a"), hx("child"), hx("g"), hx("dst")
 		L = append(L, "x w create - "+a, "x w create "+a+" "+c, "x w create "+a+"/"+c+" "+g, "x w create - "+d)
